@@ -36,13 +36,21 @@ class Ctx:
         self.rng = random.Random((seed * 1000003) ^ hash_str(prop))
         self.t0 = time.time()
         self.search = False  # proof obligation broken: spend the thorough budget searching
+        self.escalated = False  # functions in this property's anchored files differ from the pinned fingerprints: larger budget
+        self.changed = []
         self.budget_s = None
         self.pool = None
         self.driver = None
 
     @property
     def thorough(self):
-        return self.tier == "thorough" or self.search
+        return self.tier == "thorough" or self.search or self.escalated
+
+    def budget(self, thorough_s, quick_s, escalated_s=240):
+        """time budget of the campaigns that honour `time_left()`"""
+        if self.tier == "thorough" or self.search:
+            return thorough_s
+        return escalated_s if self.escalated else quick_s
 
     def time_left(self):
         if self.budget_s is None:
@@ -127,6 +135,24 @@ def translate(repo):
     import gen_tables  # noqa
 
     return gen_tables.generate(repo, os.path.join(LEAN, "Nutree", "Generated"))
+
+
+def changed_functions(repo):
+    """functions of `repo`/nutree whose fingerprint differs from translate/fingerprints.json (translate/gen_fingerprints.py)"""
+    sys.path.insert(0, os.path.join(VERIF, "translate"))
+    import gen_fingerprints  # noqa
+
+    return gen_fingerprints.changed_since_pinned(repo)[1]
+
+
+def anchor_files(prop):
+    with open(os.path.join(VERIF, "properties.jsonl")) as f:
+        for line in f:
+            if line.strip():
+                p = json.loads(line)
+                if p["id"] == prop:
+                    return list(p.get("anchors", {}).get("files", []))
+    return []
 
 
 def load_obligations():
